@@ -1,0 +1,143 @@
+// Copyright (c) The nextest Contributors
+// SPDX-License-Identifier: MIT OR Apache-2.0
+
+//! Verification hooks (feature `verif-hooks`).
+//!
+//! Read-only access to the parser's raw result (expression *and* recorded errors) and a canonical
+//! textual rendering of parsed expressions. Nothing here is used by nextest itself.
+
+use crate::{
+    NameMatcher,
+    errors::ParseSingleError,
+    parsing::{
+        AndOperator, DifferenceOperator, ExprResult, NotOperator, OrOperator, ParsedExpr, SetDef,
+        new_span, parse,
+    },
+};
+use guppy::graph::cargo::BuildPlatform;
+use miette::SourceSpan;
+use std::fmt::Write;
+
+/// Runs the filterset parser and returns both the expression (if one was produced) and every
+/// error recorded while parsing, without compiling against a package graph.
+pub fn parse_raw(input: &str) -> (Option<ParsedExpr>, Vec<ParseSingleError>) {
+    let mut errors = Vec::new();
+    let res = match parse(new_span(input, &mut errors)) {
+        Ok(ExprResult::Valid(expr)) => Some(expr),
+        Ok(ExprResult::Error) => None,
+        Err(_) => None,
+    };
+    (res, errors)
+}
+
+fn hex(s: &str) -> String {
+    if s.is_empty() {
+        return "-".to_owned();
+    }
+    let mut out = String::new();
+    for b in s.as_bytes() {
+        let _ = write!(out, "{b:02x}");
+    }
+    out
+}
+
+fn span(out: &mut String, with_spans: bool, s: &SourceSpan) {
+    if with_spans {
+        let _ = write!(out, " {} {}", s.offset(), s.len());
+    }
+}
+
+fn matcher(m: &NameMatcher) -> String {
+    let ie = |implicit: &bool| if *implicit { "i" } else { "e" };
+    match m {
+        NameMatcher::Equal { value, implicit } => format!("eq:{}:{}", ie(implicit), hex(value)),
+        NameMatcher::Contains { value, implicit } => format!("co:{}:{}", ie(implicit), hex(value)),
+        NameMatcher::Glob { glob, implicit } => format!("gl:{}:{}", ie(implicit), hex(glob.as_str())),
+        NameMatcher::Regex(r) => format!("re:{}", hex(r.as_str())),
+    }
+}
+
+fn sexpr_into(out: &mut String, expr: &ParsedExpr, with_spans: bool) {
+    match expr {
+        ParsedExpr::Not(op, a) => {
+            out.push_str(match op {
+                NotOperator::LiteralNot => "(not n ",
+                NotOperator::Exclamation => "(not ! ",
+            });
+            sexpr_into(out, a, with_spans);
+            out.push(')');
+        }
+        ParsedExpr::Union(op, a, b) => {
+            out.push_str(match op {
+                OrOperator::LiteralOr => "(or o ",
+                OrOperator::Pipe => "(or | ",
+                OrOperator::Plus => "(or + ",
+            });
+            sexpr_into(out, a, with_spans);
+            out.push(' ');
+            sexpr_into(out, b, with_spans);
+            out.push(')');
+        }
+        ParsedExpr::Intersection(op, a, b) => {
+            out.push_str(match op {
+                AndOperator::LiteralAnd => "(and a ",
+                AndOperator::Ampersand => "(and & ",
+            });
+            sexpr_into(out, a, with_spans);
+            out.push(' ');
+            sexpr_into(out, b, with_spans);
+            out.push(')');
+        }
+        ParsedExpr::Difference(DifferenceOperator::Minus, a, b) => {
+            out.push_str("(diff - ");
+            sexpr_into(out, a, with_spans);
+            out.push(' ');
+            sexpr_into(out, b, with_spans);
+            out.push(')');
+        }
+        ParsedExpr::Parens(a) => {
+            out.push_str("(par ");
+            sexpr_into(out, a, with_spans);
+            out.push(')');
+        }
+        ParsedExpr::Set(set) => {
+            let unary = |out: &mut String, name: &str, m: &NameMatcher, s: &SourceSpan| {
+                let _ = write!(out, "(set {name} {}", matcher(m));
+                span(out, with_spans, s);
+                out.push(')');
+            };
+            match set {
+                SetDef::Package(m, s) => unary(out, "package", m, s),
+                SetDef::Deps(m, s) => unary(out, "deps", m, s),
+                SetDef::Rdeps(m, s) => unary(out, "rdeps", m, s),
+                SetDef::Kind(m, s) => unary(out, "kind", m, s),
+                SetDef::Binary(m, s) => unary(out, "binary", m, s),
+                SetDef::BinaryId(m, s) => unary(out, "binary_id", m, s),
+                SetDef::Test(m, s) => unary(out, "test", m, s),
+                SetDef::Platform(p, s) => {
+                    out.push_str(match p {
+                        BuildPlatform::Host => "(platform host",
+                        BuildPlatform::Target => "(platform target",
+                    });
+                    span(out, with_spans, s);
+                    out.push(')');
+                }
+                SetDef::Default(s) => {
+                    out.push_str("(default");
+                    span(out, with_spans, s);
+                    out.push(')');
+                }
+                SetDef::All => out.push_str("(all)"),
+                SetDef::None => out.push_str("(none)"),
+            }
+        }
+    }
+}
+
+/// Canonical s-expression rendering of a parsed expression: operator spellings, matcher kinds
+/// (with values hex-encoded) and, optionally, source spans as `offset len`.
+pub fn sexpr(expr: &ParsedExpr, with_spans: bool) -> String {
+    let mut out = String::new();
+    sexpr_into(&mut out, expr, with_spans);
+    out
+}
